@@ -4,4 +4,4 @@ set -e
 cd "$(dirname "$0")"
 python3 tools/extract_consts.py /repo/src > lean/RsModel/Generated/Consts.lean.new && mv lean/RsModel/Generated/Consts.lean.new lean/RsModel/Generated/Consts.lean
 (cd lean && lake build RsModel rsdriver $(python3 -c "import json;print(' '.join('RsModel.Props.'+k for k in json.load(open('../props_index.json'))))"))
-(cd harness && CARGO_NET_OFFLINE=true cargo build --offline --release)
+(cd harness && CARGO_NET_OFFLINE=true cargo build --offline --release && CARGO_NET_OFFLINE=true cargo build --offline)
